@@ -33,6 +33,9 @@ func runC14(c *Ctx) {
 	c.Rule("R14d", "no directory-mutating call (WriteFile, WriteSumFile, WriteCheckpoint, CopyFiles, os.WriteFile/Remove/Rename) is reachable from Executor.Replay through sql/migrate code, except CopyFiles on a MemDir allocated in the same function", 1)
 	c.Rule("R14e", "a deferred closure that reports the restore error assigns it to a named result of the enclosing function (otherwise the error is lost)", 4)
 
+	c.Rule("R14f", "sqlite Snapshot: every object kind the restore closure deletes from sqlite_master (type IN (…)) is consulted by the cleanliness test (a Schema collection read before the closure is returned); index and trigger are implied by their table/view", 2)
+	checkSnapshotKinds(c)
+
 	prog := c.SSA()
 	cg := c.CHA()
 	enterRepo := func(f *ssa.Function) bool { return inRepo(f) }
@@ -407,4 +410,65 @@ func checkReplayNoDirWrite(c *Ctx) {
 		}
 	}
 	c.Note("R14d explored %d sql/migrate functions reachable from Replay; %d directory-mutating call sites examined", len(set), checked)
+}
+
+// checkSnapshotKinds: agreement between what the sqlite restore deletes and
+// what the cleanliness test looks at.
+func checkSnapshotKinds(c *Ctx) {
+	fi := c.Func("R14f", pSqlite, "Driver", "Snapshot")
+	if fi == nil {
+		return
+	}
+	info := fi.Info()
+	// kinds deleted: string constants inside function literals mentioning sqlite_master and "type IN"
+	deleted := map[string]bool{}
+	checked := map[string]bool{}
+	ast.Inspect(fi.Decl.Body, func(m ast.Node) bool {
+		fl, ok := m.(*ast.FuncLit)
+		if !ok {
+			return true
+		}
+		ast.Inspect(fl.Body, func(k ast.Node) bool {
+			if e, ok := k.(ast.Expr); ok {
+				if sv, ok := stringConst(info, e); ok && strings.Contains(sv, "sqlite_master") {
+					up := strings.ToUpper(sv)
+					if i := strings.Index(up, "TYPE IN"); i >= 0 {
+						rest := sv[i:]
+						if a, b := strings.Index(rest, "("), strings.Index(rest, ")"); a >= 0 && b > a {
+							for _, k := range strings.Split(rest[a+1:b], ",") {
+								deleted[strings.Trim(strings.TrimSpace(k), "'\"`")] = true
+							}
+						}
+					}
+				}
+			}
+			return true
+		})
+		return false
+	})
+	walkShallow(fi.Decl.Body, func(m ast.Node) bool {
+		if se, ok := m.(*ast.SelectorExpr); ok {
+			if f := fieldOf(info, se); f != nil && isField(info, se, pSchema, "Schema", f.Name()) {
+				switch f.Name() {
+				case "Tables":
+					checked["table"] = true
+				case "Views":
+					checked["view"] = true
+				}
+			}
+		}
+		return true
+	})
+	if len(deleted) == 0 {
+		c.Unresolved("R14f", "sqlite restore closure: DELETE FROM sqlite_master WHERE type IN (…)")
+		return
+	}
+	implied := map[string]string{"index": "table", "trigger": "table"}
+	for k := range deleted {
+		need := k
+		if p, ok := implied[k]; ok {
+			need = p
+		}
+		c.Check("R14f", "sqlite.Snapshot|restore deletes "+k, fi.Decl.Pos(), checked[need], "the restore closure deletes objects of type %q but the cleanliness test never looks at them: a dev database holding only such objects is accepted as clean and then wiped", k)
+	}
 }
